@@ -11,14 +11,14 @@ from symx import bv
 PROPERTY = "C07"
 
 WIDTH = {"db": 1, "dw": 2, "dl": 3, "pointer": 3}
-ASCII_DOMAIN = sorted(set(range(0x20, 0x7F)) - {0x27, 0x5C} | {0x09})
+ASCII_DOMAIN = sorted(set(range(0x00, 0x100)) - {0x27, 0x5C, 0x0A})
 
 META = {
     "bounds": {
-        "quick": ".db/.dw/.dl/.pointer lists of 1-3 symbolic values in [-2^31,2^32); forward/backward label references with symbolic placement p (LoROM, HiROM); .ascii of 0-3 symbolic printable characters; .incbin of symbolic length n < 0x18000 at symbolic p (bank crossing included)",
+        "quick": ".db/.dw/.dl/.pointer lists of 1-3 symbolic values in [-2^31,2^32); forward/backward label references with symbolic placement p (LoROM, HiROM); .ascii of 0-3 symbolic 8-bit characters; .incbin of symbolic length n < 0x18000 at symbolic p (bank crossing included)",
         "thorough": "same with lists up to 4, .ascii up to 4 characters and mixed directive sequences",
     },
-    "outside": ["characters >= 0x7F, quote/backslash/newline inside .ascii (escape conventions not stated)", ".incbin longer than 0x18000", "values beyond 32 bits"],
+    "outside": ["quote/backslash/newline inside .ascii (escape conventions not stated)", ".incbin longer than 0x18000", "values beyond 32 bits"],
     "oracle": "two's-complement little-endian truncation; ASCII bytes; file bytes verbatim; start/size symbols; address advance by the textbook mapping formula (harness/common.py)",
     "stubs": ["open(): virtual file system for the .incbin file (content = unconstrained blob of symbolic length)"],
     "assumptions": [],
@@ -129,7 +129,16 @@ def check(spec, cx, out):
         res.append(("offset", bv(addr) == rom_offset(spec["rom"], p)))
         return res
     if t == "ascii":
-        exp = [z3.ZeroExt(56, cx.t(f"c{i}")) for i in range(spec["n"])]
+        # ASCII characters are emitted as their byte; characters >= 0x80 have no ASCII byte and are
+        # left out -- and the directive occupies exactly the bytes it emits (the `end` label follows them)
+        exp = []
+        for i in range(spec["n"]):
+            c = cx.t(f"c{i}")
+            d = cx.implied(z3.ULT(c, 0x80))
+            if d is None:
+                return [("ascii-structure-decided-by-path", z3.BoolVal(False))]
+            if d:
+                exp.append(z3.ZeroExt(56, c))
         end = 0x8000 + len(exp)
         res.append(("ascii-bytes", eq_bytes(data, exp + le_bytes(B(end), 3))))
         return res
